@@ -516,6 +516,16 @@ def render_data(doc, it, parent, d, relfile, report):
             rw["R2"] = rw.get("R2", 0) + 1
     if it["kind"] == "struct":
         for f in it["fields"]:
+            if any(a["name"] == "cfg" and "feature" in a["text"] for a in f["attrs"]):
+                # feature-gated field (e.g. qlog metrics): not part of the default build that is verified; dropped with its comma
+                fs, fe = f["span"]
+                while src[fe:fe + 1] in (b" ", b"\n", b"\t"):
+                    fe += 1
+                if src[fe:fe + 1] == b",":
+                    fe += 1
+                ed.replace(fs, fe, "")
+                rw["R7-cfg-field"] = rw.get("R7-cfg-field", 0) + 1
+                continue
             for a in f["attrs"]:
                 ed.replace(a["span"][0], a["span"][1], "")
             if f["vis"]:
